@@ -640,7 +640,7 @@ def run(run, replay=None):
             for (sx, st) in pairs:
                 small = len(sx) <= 2 and len(st) <= 2
                 for mode in MODES:
-                    if quick and not small and rng.random() > 0.12:
+                    if quick and not small and rng.random() > 0.3:
                         continue
                     variant = "apply"
                     if mode == "elementwise" and (len(sx) + len(st)) % 2 == 1:
